@@ -53,7 +53,7 @@ Theorem C14_oracle_sound : forall njobs tr vals table fc late, ok_C14 njobs tr v
   forall j, j < njobs -> exists s c ro,
     jrun jinit (proj j tr) = Some s /\ is_path (ws_of (proj j tr)) = true /\ starts_ready (ws_of (proj j tr)) = true /\
     cur s = Some c /\ terminal c = true /\ lookup_row j table = [(c, ro)] /\
-    (straddles j tr = true -> In CANCELLING (ws_of (proj j tr))) /\
+    (straddles j tr = true -> told_before_s2 j tr = true) /\
     (In CANCELLING (ws_of (proj j tr)) -> c = CANCELLED) /\
     (returned s = true -> lookup_val j vals = Some ro).
 Proof. exact ok_C14_sound. Qed.
@@ -63,7 +63,7 @@ Print Assumptions C14_oracle_sound.
 Example C14_example :
   ok_C14 3
     [J 0 (W READY); J 1 (W READY); J 2 (W READY); J 0 (W RUNNING); J 1 (W RUNNING); J 0 FStart; J 1 FStart; J 0 (Poll RUNNING);
-     J 0 FReturn; J 1 (Poll RUNNING); J 1 (W CANCELLING); J 1 (Poll CANCELLING); Sentinel; J 1 FReturn; J 1 (W CANCELLED);
+     J 0 FReturn; J 1 (Poll RUNNING); J 1 (W CANCELLING); J 1 (Poll CANCELLING); Sentinel; Sentinel; J 1 FReturn; J 1 (W CANCELLED);
      J 2 (W RUNNING); J 2 FStart; J 2 (W CANCELLING); J 2 (Poll CANCELLING); J 2 FReturn; J 2 (W CANCELLED); J 0 (W DONE)]
     [(0, 10%Z); (1, 11%Z); (2, 12%Z)] [(0, DONE, 10%Z); (1, CANCELLED, 11%Z); (2, CANCELLED, 12%Z)] (-1)%Z 0 = None.
 Proof. vm_compute. reflexivity. Qed.
